@@ -36,7 +36,43 @@ func NewPlan(property string, master uint64, i int) *Plan {
 	p := g(r)
 	p.Property = property
 	p.Seed = seed
+	sprinkle(p, NewRng(Mix(seed, 0x5eed)))
 	return p
+}
+
+// sprinkle adds, to a minority of the plans of every generator, what any deployment meets whatever
+// the workload is about: a process that crashes and comes back between two requests (only what the
+// browsers hold survives), and two requests of different browsers that overlap in time. Drawn from
+// a stream of its own, so the generator's draws are what they were.
+func sprinkle(p *Plan, r *Rng) {
+	if len(p.Steps) < 3 {
+		return
+	}
+	if r.Chance(1, 12) {
+		at := r.Range(1, len(p.Steps)-1)
+		st := Step{Op: "restart", Sub: r.Pick("proxy", "auth")}
+		p.Steps = append(p.Steps[:at], append([]Step{st}, p.Steps[at:]...)...)
+		p.Gen += "+crash"
+	}
+	if r.Chance(1, 12) {
+		var cand []int
+		for i := 0; i+1 < len(p.Steps); i++ {
+			a, b := &p.Steps[i], &p.Steps[i+1]
+			plain := func(s *Step) bool {
+				return s.Op == "get" && s.Twin == nil && s.Follow == 0 && s.Tag == "" && s.Sub == "" && s.B != ""
+			}
+			if plain(a) && plain(b) && a.B != b.B && b.Dt == 0 {
+				cand = append(cand, i)
+			}
+		}
+		if len(cand) > 0 {
+			i := cand[r.Intn(len(cand))]
+			second := p.Steps[i+1]
+			p.Steps[i].Twin = &second
+			p.Steps = append(p.Steps[:i+1], p.Steps[i+2:]...)
+			p.Gen += "+overlap"
+		}
+	}
 }
 
 var stdUsers = []UserSpec{
